@@ -1,1 +1,42 @@
-From Coq Require Import ZArith.
+(* C17 — Encoders and Renderers carry no state across Reset; output is deterministic.
+   Statements only; proofs in proofs/EncProofs.v and proofs/RenderProofs.v.  Determinism ("encoding the
+   same calls twice gives identical output") is functionality of the model; the tie to the code is the
+   correspondence run, which executes reused and fresh objects side by side. *)
+From Coq Require Import ZArith Bool List.
+From IVG Require Import SF NumCodec Color Calls Encoder EncProofs Render Arc RenderProofs.
+Import ListNotations.
+Local Open Scope Z_scope.
+
+(* whatever happened to an Encoder before (errors, open path, pending run, hi-res flag ...), after Reset
+   it is the Encoder obtained from the zero value by the same Reset: all later observations agree *)
+Theorem encoder_reset_fresh : forall (A B : list eact) vb pal (e : enc),
+  let r := ACall (CReset vb pal) in
+  enc_run (fst (enc_run e A)) (r :: B) = enc_run enc_zero (r :: B).
+Proof. exact EncProofs.encoder_reset_fresh. Qed.
+Print Assumptions encoder_reset_fresh.
+
+Theorem bytes_twice : forall e,
+  snd (enc_bytes (fst (enc_bytes e))) = snd (enc_bytes e) /\
+  fst (enc_bytes (fst (enc_bytes e))) = fst (enc_bytes e).
+Proof. exact EncProofs.bytes_idempotent. Qed.
+Print Assumptions bytes_twice.
+
+(* the rasteriser log is write-only: what a Renderer does never depends on what it has emitted so far *)
+Theorem renderer_log_is_write_only : forall l s L,
+  rrun32 (with_log s L) l = with_log (rrun32 (with_log s []) l) (L ++ r_log (rrun32 (with_log s []) l)).
+Proof. exact RenderProofs.framed_rrun. Qed.
+Print Assumptions renderer_log_is_write_only.
+
+(* two Renderers over the same rectangle, in arbitrary states (registers, selectors, LOD, smooth-curve state,
+   disabled flag, paint, rasteriser pen left by any earlier history), emit the same rasteriser calls for
+   Reset followed by any well-formed program *)
+Theorem renderer_reset_fresh : forall s s' vb pal B,
+  r_x0 s = r_x0 s' -> r_y0 s = r_y0 s' -> r_w s = r_w s' -> r_h s = r_h s' ->
+  wf_prog false B = true ->
+  exists d, r_log (rrun32 s (CReset vb pal :: B)) = r_log s ++ d /\
+            r_log (rrun32 s' (CReset vb pal :: B)) = r_log s' ++ d.
+Proof. exact RenderProofs.renderer_reset_fresh. Qed.
+Print Assumptions renderer_reset_fresh.
+
+Example ex_wf : wf_prog false [CSetCSel 3; CStartPath 0 0 0; CDraw opL [0; 0]; CArc true 0 0 0 false true 0 0; CEndPath; CSetLOD 0 0] = true.
+Proof. reflexivity. Qed.
